@@ -121,6 +121,11 @@ def run(P, chk, tier):
                     x = sk(e)
                     if x.get("k") == "Bin" and x["op"] == "=" and pp(sk(x["a"][0])) == "tempenc":
                         sel.add(pp(sk(x["a"][1])).lstrip("&"))
+        if not nums or any(n is None for n in nums) or not sel:
+            chk.undecided(r2, ch, ch.line, "result %d selects %s" % (k, codec),
+                          "the codec switch for this result is not a call with a constant codec number resolved by a test in "
+                          "handshake_switch_codec (numbers %s, encoders %s)" % (nums, sorted(sel)))
+            continue
         chk.site(r2, ch, ch.line, "result %d selects %s" % (k, codec), sel == {codec + "_ops"}, "switch numbers %s -> %s" % (nums, sorted(sel)))
     # ------------------------------------------------------------------ R3
     r3 = chk.rule("C11.R3", "tested = selected (downstream)", "every flag that marks a downstream codec as working is set only "
@@ -173,6 +178,7 @@ def run(P, chk, tier):
     fallback(P, E, chk)
     fragprobe(P, E, chk)
     probe_last(P, E, chk, ch)
+    data_within_probe(P, chk)
 
 
 def probe_types(P, E, chk):
@@ -315,3 +321,24 @@ def probe_last(P, E, chk, ch):
     chk.site(r7, ch, ir.loc(fc_), "after %s()" % fc_.get("fn"), not bad,
              "no negotiated parameter is written afterwards" if not bad else
              "%s is modified at line %d after the fragment size was probed with the old setting" % (bad[0][1], ir.loc(bad[0][0])))
+
+
+def data_within_probe(P, chk):
+    """R8: the probe measures that an answer of the requested size passes; the data path must not send more than the
+    size negotiated from it.  That is C15.R0/R1 (payload <= fragsize on every sending path), shared."""
+    from iosa import report
+    from . import c15
+    r8 = chk.rule("C11.R8", "data answers stay within the probed size", "every downstream data answer carries at most the "
+                  "negotiated fragment size (shared with C15.R0/R1): a larger answer was never probed and may be cut by the "
+                  "path the handshake validated", "E1 + E3 (C15)", floor=3)
+    chk2 = report.Check("C15", "quick", P)
+    c15.run(P, chk2, "quick")
+    n = 0
+    for rid in ("C15.R0", "C15.R1"):
+        for s_ in chk2.rules[rid]["sites"]:
+            n += 1
+            if rid == "C15.R1" or not s_.ok:
+                fo = P.func(s_.func, "iodined.c") if P.has_func(s_.func, "iodined.c") else s_.func
+                chk.site(r8, fo, s_.where.split(":")[-1], s_.construct, s_.ok, s_.detail)
+    if n < 3:
+        raise AnalysisBroken("C11.R8: the C15 sender rules produced no sites")
